@@ -519,7 +519,7 @@ def gen_raw(rng, tier):
 MODNAMES = ["ma", "mb", "mc", "exceptions", "__builtin__", "m\u00fc"]
 DIRNAMES = ["d", "d", "my dir", "\u0434\u0438\u0440", "q\"t", "sp  x"]
 KINDS = ["func", "func", "func", "lambda", "method", "static", "nested", "gen", "genexpr", "rec", "exec", "deco",
-         "prop", "closure"]
+         "prop", "closure", "execsrc", "execsrc"]
 STMTS = ["return {nx}(n)", "x = {nx}(n); return x", "return ({nx}(\n        n))", "if n == 0:\n        return {nx}(n)   # c: d",
          "try:\n        return {nx}(n)\n    finally:\n        pass", "for _ in [0]:\n        return {nx}(n)",
          "return {nx}(n)   ", "return {nx}(n)  # \u00fcn\u00ef \u2713", "return   {nx}( n )", "r = [{nx}(n) for _ in [0]]; return r[0]",
@@ -534,9 +534,11 @@ def gen_ei(rng, tier, mods=None, depths=(1, 1, 2, 3, 3, 4, 5, 6, 8, 12), probe=F
     shared_exec = rng.random() < 0.06
     if shared_exec:
         depth = max(depth, rng.choice([4, 5, 6]))
+    fixed_mods = mods is not None
     if mods is None:
         mods = rng.sample(MODNAMES, rng.choice([1, 1, 2, 3]))
-    src = {m: ["import sys", "class _Ctx:\n    def __enter__(self):\n        return self\n    def __exit__(self, *a):\n        return False"]
+    src = {m: ["import sys", "class _SrcLoader:\n    def __init__(self, text):\n        self.text = text\n    def get_source(self, name):\n        return self.text",
+               "class _Ctx:\n    def __enter__(self):\n        return self\n    def __exit__(self, *a):\n        return False"]
            for m in mods}
     for m in mods:
         for o in mods:
@@ -573,6 +575,12 @@ def gen_ei(rng, tier, mods=None, depths=(1, 1, 2, 3, 3, 4, 5, 6, 8, 12), probe=F
         elif kind == "exec":
             code = 'exec(compile("def c%d(n):\\n    return %s(n)\\n", "%s", "exec"), globals())' % (
                 i, nx, "<gen>" if shared_exec else "<gen%d>" % i)
+        elif kind == "execsrc":
+            # code compiled from a string under a pseudo file name; its source exists only behind the
+            # __loader__ of the globals it runs in (linecache finds it through the frame's module globals)
+            body = "def c%d(n):\n    x = n  # only via the loader\n    return _m.%s(x)\n" % (i, nx)
+            code = ("_g%d = {'__name__': 'virt%d', '_m': sys.modules[__name__], '__loader__': _SrcLoader(%r)}\n"
+                    "exec(compile(%r, 'memory:/virt%d.py', 'exec'), _g%d)\nc%d = _g%d['c%d']" % (i, i, body, body, i, i, i, i, i))
         elif kind == "deco":
             code = ("def deco%d(f):\n    def wrapper(*a):\n        return f(*a)\n    return wrapper\n@deco%d\ndef c%d(n):\n    %s"
                     % (i, i, i, stmt))
@@ -669,8 +677,11 @@ def gen_ei(rng, tier, mods=None, depths=(1, 1, 2, 3, 3, 4, 5, 6, 8, 12), probe=F
         body = "raise %s(%s)" % (ref, args or "")
         expect = q.split(".")[-1]
     src[m].append("%sdef c%d(n):\n    %s" % (pre, depth, body))
+    # where the modules live: plain files, or a zip archive on sys.path (source reachable only through the
+    # zipimporter of the module globals); sessions rewrite files and stay on disk
+    host = "file" if fixed_mods else rng.choice(["file", "file", "zip"])
     return {"kind": "ei", "dir": rng.choice(DIRNAMES), "modules": [[mm, "\n".join(src[mm]) + "\n"] for mm in mods],
-            "entry": [where[0], "c0"], "expect": expect, "full": rng.random() < 0.3}
+            "entry": [where[0], "c0"], "expect": expect, "full": rng.random() < 0.3, "host": host}
 
 
 def gen_stack(rng, tier):
@@ -840,10 +851,30 @@ def run_impl(case):
     return _run_program(case)
 
 
-def _write_modules(d, modules):
+def _write_modules(d, modules, host="file"):
+    """Returns the sys.path entry under which the modules can be imported."""
+    if host == "zip":
+        import zipfile
+        z = os.path.join(d, "bundle.zip")
+        with zipfile.ZipFile(z, "w") as zf:
+            for m, text in modules:
+                zf.writestr(m + ".py", text)
+        return z
     for m, text in modules:
         with open(os.path.join(d, m + ".py"), "w", encoding="utf-8") as f:
             f.write(text)
+    return d
+
+
+def _forget_path(entry):
+    if entry in sys.path:
+        sys.path.remove(entry)
+    sys.path_importer_cache.pop(entry, None)
+    try:
+        import zipimport
+        zipimport._zip_directory_cache.pop(entry, None)
+    except Exception:
+        pass
 
 
 def _edit(d, how, step, mods):
@@ -955,10 +986,10 @@ def _run_stack(case, d):
     import traceback
     from boltons import tbutils
     names = [m for m, _ in case["modules"]]
-    _write_modules(d, case["modules"])
+    entry_path = _write_modules(d, case["modules"], case.get("host", "file"))
     for m in names:
         sys.modules.pop(m, None)
-    sys.path.insert(0, d)
+    sys.path.insert(0, entry_path)
     result = []
 
     def probe():
@@ -999,7 +1030,7 @@ def _run_stack(case, d):
         result[0]["root"] = os.path.dirname(d)
         return result[0]
     finally:
-        sys.path.remove(d)
+        _forget_path(entry_path)
         for m in names:
             sys.modules.pop(m, None)
         linecache.clearcache()
@@ -1024,7 +1055,9 @@ def _run_program(case):
         steps, names = case["steps"], case["mods"]
     for m in names:
         sys.modules.pop(m, None)
-    sys.path.insert(0, d)
+    host = case.get("host", "file")
+    entry_path = os.path.join(d, "bundle.zip") if host == "zip" else d
+    sys.path.insert(0, entry_path)
     try:
         out = []
         entry = None
@@ -1033,7 +1066,7 @@ def _run_program(case):
             if mode == "delete":
                 _edit(d, "delete", step, names)
             else:
-                _write_modules(d, step["modules"])
+                _write_modules(d, step["modules"], host)
             if mode in ("load", "reload"):
                 for m in names:
                     sys.modules.pop(m, None)
@@ -1049,7 +1082,7 @@ def _run_program(case):
             return out[0]
         return {"steps": out, "root": root}
     finally:
-        sys.path.remove(d)
+        _forget_path(entry_path)
         for m in names:
             sys.modules.pop(m, None)
         linecache.clearcache()
@@ -1252,6 +1285,8 @@ def distribution(d, case, obs):
             inc("raw_print", obs["printed"]["err"])
     else:
         inc("ei_frames", str(min(20, len(obs["frames"]))))
+        inc("ei_host", case.get("host", "file"))
+        inc("ei_loader_only_source", str(sum(1 for l in obs["live"] if l["raw"].strip() and not os.path.exists(l["file"]))))
         inc("ei_type", obs["type"] if len(obs["type"]) < 30 else "long")
         inc("ei_nosrc", str(sum(1 for l in obs["live"] if not l["raw"].strip())))
         es = obs["exc"]["str"]
